@@ -73,6 +73,10 @@ func (pe *shellVariablesEncoder) doEncode(w *io.Writer, node *CandidateNode, pat
 		}
 		return nil
 	case AliasNode:
+		if node.Alias == nil {
+			// an alias made by `alias = "name"` has a name only
+			return fmt.Errorf("alias '%v' does not point to an anchor", node.Value)
+		}
 		return pe.doEncode(w, node.Alias, path)
 	default:
 		return fmt.Errorf("Unsupported node %v", node.Tag)
